@@ -39,6 +39,13 @@ pub fn usable(run: &RunOut, out: &mut CaseOut, prog: &Program, what: &str) -> bo
     true
 }
 
+/// A run that stopped at its answer cap before the stream ended cannot be compared as a complete
+/// multiset with a side that has at least as many answers (it would only be a prefix). A capped
+/// run with MORE answers than a complete other side is still compared (and differs).
+pub fn cut_at_cap(run_ended: bool, run_len: usize, other_ended: bool, other_len: usize) -> bool {
+    (!run_ended && other_len >= run_len) || (!other_ended && run_len >= other_len)
+}
+
 pub fn usable_states(run: &StatesOut, out: &mut CaseOut, prog: &Program, what: &str) -> bool {
     if let Some(p) = &run.panic {
         out.violate("M-panic", &format!("panic {} at {}", p.message, p.location), format!("{}: panic '{}' at {}", what, p.message, p.location), format!("{}", prog));
